@@ -1,4 +1,6 @@
-(* Proofs/DagProgress.v — C02: an all-predecessor run does not stall.
+(* Proofs/DagProgress.v — C02: an all-predecessor run does not stall: in every state the loop of runner.run
+   reaches there is a task to submit or to collect, and runner.run never returns "no tasks to execute"
+   (for graphs whose control and data dependencies have a topological order).
    Part 1 (SN): a skipped channel belongs to a real node (reportBranch fails with "unknown node: end" when the
    skip reaches END), so in every state the loop reaches END is not skipped. *)
 From Eino Require Import Base.Util Model.Graph Model.DagSpec Proofs.DagChan Proofs.DagInv Proofs.DagLoop Proofs.DagTrig
@@ -370,3 +372,211 @@ Section Progress.
     - destruct (reach_SN s0 ls Rv Hr kEND) as [[]|Hf]; [exists ce; auto|]. exact (Hf HendN).
   Qed.
 End Progress.
+
+(* ================= Part 3: runner.run never ends with "no tasks to execute" ================= *)
+Section ErrorClasses.
+  Variable V : Type.
+  Variable ops : vops V.
+  Variable g : graph.
+  Hypothesis Hdag : g_mode g = Dag.
+
+  Definition engine_err (e : N) : Prop :=
+    e = eUnknownNode \/ e = eBranch \/ e = eLoopFuel \/ e = eSkipEnd \/ exists vals, v_merge ops vals = Err e.
+
+  Lemma propagate_err fuel : forall work cs e, propagate V g fuel work cs = Err e -> e = eLoopFuel \/ e = eSkipEnd.
+  Proof.
+    induction fuel as [|fuel IH]; intros work cs e; destruct work as [|k work]; simpl; try discriminate.
+    - intros [= <-]. now left.
+    - destruct (find_node g k) as [n|]; [|intros [= <-]; now right].
+      destruct (report_skip_to V cs k (succs n)) as [cs1 newly]. apply IH.
+  Qed.
+
+  Lemma report_branch_err from sk cs e : report_branch V g from sk cs = Err e -> e = eLoopFuel \/ e = eSkipEnd.
+  Proof.
+    unfold report_branch. rewrite Hdag. destruct (report_skip_to V cs from sk) as [cs1 newly]. apply propagate_err.
+  Qed.
+
+  Lemma resolve_all_err completed : forall cs e, resolve_all V ops g completed cs = Err e -> engine_err e.
+  Proof.
+    induction completed as [|[k out] completed IH]; intros cs e; cbn [resolve_all]; [discriminate|].
+    destruct (find_node g k) as [n|]; [|intros [= <-]; now left].
+    destruct (resolve_one V ops g n out cs) as [[[cs1 w1] d1]|e1|] eqn:E1; simpl.
+    - destruct (resolve_all V ops g completed cs1) as [[[cs2 w2] d2]|e2|] eqn:E2; simpl; [discriminate| |discriminate].
+      intros [= <-]. eapply IH; eassumption.
+    - intros [= <-]. unfold resolve_one in E1.
+      destruct (eval_branches V ops n out) as [[sel sk]|e0|] eqn:Ev; simpl in E1.
+      + destruct (report_branch V g (n_key n) sk cs) as [cs1'|e0|] eqn:Erb; simpl in E1; [discriminate| |discriminate].
+        injection E1 as <-. destruct (report_branch_err _ _ _ _ Erb) as [Hx|Hx]; subst; unfold engine_err; tauto.
+      + injection E1 as <-. unfold eval_branches in Ev. destruct (forallb _ _); [discriminate|]. injection Ev as <-.
+        unfold engine_err; tauto.
+      + discriminate.
+    - discriminate.
+  Qed.
+
+  Lemma get_all_err : forall cs e, get_all V ops g cs = Err e -> exists vals, v_merge ops vals = Err e.
+  Proof.
+    induction cs as [|[k c] cs IH]; intros e; cbn [get_all]; [discriminate|].
+    unfold chan_get. rewrite Hdag.
+    destruct (dag_get V ops c) as [[ov c1]|e1|] eqn:Eg; simpl.
+    - destruct (get_all V ops g cs) as [[cs2 ready]|e2|] eqn:Ea; simpl; [discriminate| |discriminate].
+      intros [= <-]. now apply IH.
+    - intros [= <-]. unfold dag_get in Eg. destruct (dag_ready V c); [|discriminate].
+      destruct (get_merge V ops (c_vals V c)) as [v|e2|] eqn:Em; simpl in Eg; [discriminate| |discriminate].
+      injection Eg as <-. unfold get_merge in Em. destruct (c_vals V c) as [|[k1 v1] [|kv2 l]]; try discriminate.
+      eexists. exact Em.
+    - discriminate.
+  Qed.
+
+  Lemma calc_next_err cs completed e : calc_next V ops g cs completed = Err e -> engine_err e.
+  Proof.
+    unfold calc_next.
+    destruct (resolve_all V ops g completed cs) as [[[cs1 ws] ds]|e1|] eqn:E1; simpl; [|intros [= <-]; eapply resolve_all_err; eassumption|discriminate].
+    destruct (update_chans V g ws ds cs1) as [cs2|e2|] eqn:E2; simpl.
+    - intros E3. right. right. right. right. eapply get_all_err; eassumption.
+    - intros [= <-]. unfold update_chans in E2. destruct (targets_exist V cs1 ws ds); [discriminate|]. injection E2 as <-. now left.
+    - discriminate.
+  Qed.
+
+  Lemma init_chans_err e : init_chans V g = Err e -> engine_err e.
+  Proof.
+    unfold init_chans. rewrite Hdag. intros H. destruct (report_branch_err _ _ _ _ H) as [Hx|Hx]; subst; unfold engine_err; tauto.
+  Qed.
+
+  Lemma engine_err_not_notasks e :
+    (forall vals, v_merge ops vals <> Err eNoTasks) -> engine_err e -> e <> eNoTasks.
+  Proof.
+    intros Hm [Hx|[Hx|[Hx|[Hx|(vals & Hv)]]]]; try (subst; discriminate). intros Hx. subst. exact (Hm vals Hv).
+  Qed.
+End ErrorClasses.
+
+Section NoTasks.
+  Variable V : Type.
+  Variable St : Type.
+  Variable ops : vops V.
+  Variable g : graph.
+  Hypothesis Hdag : g_mode g = Dag.
+  Hypothesis Hnk : NoDup (map n_key (g_nodes g)).
+  Hypothesis Hcd : api_built g.
+  Hypothesis HendN : find_node g kEND = None.
+  Variable rank : key -> nat.
+  Hypothesis Hrank : forall t q, gpred g t q -> (rank q < rank t)%nat.
+  Hypothesis Hmerge : forall vals, v_merge ops vals <> Err eNoTasks.
+  Variable nout : node -> V -> tres V.
+  Hypothesis Hnz : forall n v, nout n v <> TErr [].
+  Variable x : V.
+  Variable exec : St -> path -> V -> res V * St.
+  Variable sub : nat -> path -> V -> St -> outcome V * St.
+  Variable sched : nat -> list key -> nat.
+  Variable p : path.
+  Hypothesis Hsub : forall i k v s, Forall (fun e : logentry V => fst e <> p) (outcome_log V (fst (sub i (p ++ [k]) v s))).
+  Hypothesis Hpure : forall n v s, fst (fst (run_task V St ops exec sub p n v s)) = nout n v.
+
+  Notation reach := (reach V St ops g exec sub sched p).
+  Notation step := (step V St ops exec sub sched p g).
+
+  Lemma wait_tasks_nonempty n (l : list (key * tres V)) : l <> [] -> fst (wait_tasks V sched g n l) <> [].
+  Proof.
+    intros Hl. unfold wait_tasks. destruct (g_eager g); [|exact Hl].
+    destruct l as [|a l]; [congruence|].
+    destruct (nth_error (a :: l) (sched n (akeys (a :: l)) mod List.length (a :: l))%nat) eqn:E; simpl; [discriminate|].
+    apply nth_error_None in E. pose proof (Nat.mod_upper_bound (sched n (akeys (a :: l))) (List.length (a :: l))) as H.
+    simpl in *. lia.
+  Qed.
+
+  (* a node failure carries a node path: it is not one of the engine's own errors *)
+  Lemma run_task_err_path n v s es e :
+    fst (fst (run_task V St ops exec sub p n v s)) = TErr es -> In e es -> e_path e <> [].
+  Proof.
+    unfold run_task. destruct (n_kind n) as [| |i].
+    - destruct (exec s (p ++ [n_key n]) v) as [r s1]. destruct r as [o|c|]; simpl; [discriminate|..];
+        intros [= <-] [<-|[]]; discriminate.
+    - simpl. discriminate.
+    - destruct (sub i (p ++ [n_key n]) v s) as [o s1]. destruct o as [r l|es0 l]; simpl; [discriminate|].
+      intros [= <-] Hin. apply in_map_iff in Hin. destruct Hin as (e0 & <- & _). discriminate.
+  Qed.
+
+  Theorem step_never_no_tasks s0 ls Rv lg s' :
+    reach x s0 ls Rv -> step ls <> Finish (Fail [mkerr eNoTasks] lg) s'.
+  Proof.
+    intros Hr Hstep.
+    pose proof (reach_not_stalled V St ops g Hdag Hnk Hcd HendN rank Hrank nout Hnz x exec sub sched p Hsub Hpure s0 ls Rv Hr) as Hns.
+    unfold Graph.step, step_limit_hit in Hstep. rewrite Hdag in Hstep.
+    destruct (submit V St ops exec sub p g (ls_next V St ls) (ls_st V St ls)) as [[results sublog] s1] eqn:Es.
+    destruct (wait_tasks V sched g (ls_step V St ls) (ls_running V St ls ++ results)) as [completed running'] eqn:Ew.
+    destruct (submit_spec V St ops g exec sub p _ Hsub _ _ _ _ _ Es) as [Hkeys _].
+    assert (Hne : ls_running V St ls ++ results <> []).
+    { destruct Hns as [Hn|Hn].
+      - intros E. apply app_eq_nil in E. destruct E as [_ ->]. simpl in Hkeys.
+        destruct (ls_next V St ls); [congruence|discriminate].
+      - intros E. apply app_eq_nil in E. destruct E as [E _]. contradiction. }
+    pose proof (wait_tasks_nonempty (ls_step V St ls) _ Hne) as Hc. rewrite Ew in Hc. simpl in Hc.
+    destruct (task_errors V completed) as [|e0 es0] eqn:Et.
+    - destruct completed as [|c0 cl]; [congruence|].
+      destruct (calc_next V ops g (ls_chans V St ls) (task_outputs V (c0 :: cl))) as [[cs' ready]|e|] eqn:Ec.
+      + destruct (alookup kEND ready); discriminate.
+      + assert (He : e = eNoTasks) by (unfold mkerr in Hstep; congruence).
+        exact (engine_err_not_notasks V ops e Hmerge (calc_next_err V ops g Hdag _ _ _ Ec) He).
+      + discriminate.
+    - assert (He0 : e0 = mkerr eNoTasks) by congruence.
+      (* a collected task error is a node failure: it carries a path *)
+      assert (Hin : In e0 (task_errors V completed)) by (rewrite Et; now left).
+      unfold task_errors in Hin. apply in_flat_map in Hin. destruct Hin as ([k r] & Hkr & Hr0).
+      destruct r as [v|esk]; simpl in Hr0; [destruct Hr0|].
+      assert (Hkr' : In (k, TErr esk) (ls_running V St ls ++ results)).
+      { eapply Permutation_in; [exact (wait_tasks_perm V g sched _ _ _ _ Ew)|]. apply in_app_iff. now left. }
+      pose proof (reach_LX V St ops g Hdag Hnk Hcd nout x exec sub sched p Hsub Hpure s0 ls Rv Hr) as HLX.
+      destruct (LX_submitted V St ops g nout x exec sub p Hsub Hpure ls Rv results sublog s1 HLX Es) as [_ HRE].
+      destruct (HRE k esk Hkr') as [(n & w & _ & _ & Ho)|(_ & ->)].
+      + rewrite <- (Hpure n w (ls_st V St ls)) in Ho.
+        apply (run_task_err_path n w (ls_st V St ls) esk e0 Ho Hr0). rewrite He0. reflexivity.
+      + destruct Hr0 as [<-|[]]. discriminate.
+  Qed.
+
+  (* runner.run (run_flat) never returns "no tasks to execute" *)
+  Theorem run_flat_never_no_tasks s lg s' :
+    run_flat V St ops exec sub sched p g x s <> (Fail [mkerr eNoTasks] lg, s').
+  Proof.
+    intros Erun. pose proof Erun as Erun0. unfold run_flat in Erun.
+    destruct (init_chans V g) as [cs0|e|] eqn:Ei.
+    - destruct (calc_next V ops g cs0 [(kSTART, x)]) as [[cs1 ready]|e|] eqn:Ec.
+      + destruct (alookup kEND ready) as [v0|] eqn:Eend; [discriminate|].
+        destruct (run_flat_reach V St ops g exec sub sched p x s cs0 cs1 ready _ _ Ei Ec Eend Erun0)
+          as (ls & Rv & Hr & [Hstep|[Hf _]]).
+        * exact (step_never_no_tasks s ls Rv lg s' Hr Hstep).
+        * discriminate.
+      + assert (He : e = eNoTasks) by (unfold mkerr in Erun; congruence).
+        exact (engine_err_not_notasks V ops e Hmerge (calc_next_err V ops g Hdag _ _ _ Ec) He).
+      + discriminate.
+    - assert (He : e = eNoTasks) by (unfold mkerr in Erun; congruence).
+      exact (engine_err_not_notasks V ops e Hmerge (init_chans_err V ops g Hdag e Ei) He).
+    - discriminate.
+  Qed.
+End NoTasks.
+
+(* the fan-in of the harness values fails with "duplicated key" / "type mismatch" only: never with the class of
+   "no tasks to execute" (same proof as tree_merge_not_fuel, for any class other than those two) *)
+Lemma merge_into_class_gen (c : N) (acc : res (list (N * value))) (kvs : list (N * value)) :
+  c <> eDupKey -> acc <> Err c ->
+  fold_left (fun r kv => do a <- r; match alookup (fst kv) a with Some _ => Err eDupKey | None => Ok (ainsert (fst kv) (snd kv) a) end) kvs acc <> Err c.
+Proof.
+  intros Hc. revert acc. induction kvs as [|kv kvs IH]; simpl; intros acc H; [assumption|].
+  apply IH. destruct acc as [a|e|]; simpl; [|assumption|discriminate].
+  destruct (alookup (fst kv) a); [|discriminate]. intros [= E]. now apply Hc.
+Qed.
+
+Lemma tree_merge_class_gen (c : N) vals : c <> eDupKey -> c <> eMergeType -> v_merge tree_ops vals <> Err c.
+Proof.
+  intros Hc1 Hc2. simpl. unfold tree_merge.
+  assert (H : forall (vs : list (key * value)) (acc : res (list (N * value))), acc <> Err c ->
+            fold_left (fun r kv => do a <- r; match snd kv with VMap kvs => merge_into a kvs | VNil => Ok a | VAtom _ => Err eMergeType end) vs acc
+            <> Err c).
+  { induction vs as [|kv vs IH]; simpl; intros acc Ha; [assumption|].
+    apply IH. destruct acc as [a|e|]; simpl; [|assumption|discriminate].
+    destruct (snd kv); [intros [= E]; now apply Hc2|discriminate|]. unfold merge_into. apply merge_into_class_gen; [assumption|discriminate]. }
+  specialize (H vals (Ok []) ltac:(discriminate)).
+  match type of H with ?t <> _ => change (res_bind t (fun m => Ok (VMap m)) <> Err c); destruct t as [m|e|] eqn:Et end;
+    simpl; [discriminate|intros [= ->]; now apply H|discriminate].
+Qed.
+
+Lemma tree_merge_not_notasks vals : v_merge tree_ops vals <> Err eNoTasks.
+Proof. apply tree_merge_class_gen; discriminate. Qed.
